@@ -21,6 +21,7 @@ var verifEntries = map[string]func(int){
 	"Verif_C04_VDefrag":    Verif_C04_VDefrag,
 	"Verif_C15_VDefrag":    Verif_C15_VDefrag,
 	"Verif_C11_OverBudget": Verif_C11_OverBudget,
+	"Verif_C11_FaultCount": Verif_C11_FaultCount,
 	"Verif_C15_VReuse":     Verif_C15_VReuse,
 	"Verif_C11_Race":       Verif_C11_Race,
 	"Verif_C12_Pairs":      Verif_C12_Pairs,
